@@ -40,8 +40,8 @@ COMPONENTS = {
 }
 ASSUMPTIONS = [
     "values lie within the bins (precondition of the statement); weights are non-negative",
-    "sums compared with 1e-9 relative to the sum of absolute terms (any summation order of <= 200 float64 terms "
-    "differs by < 5e-14 of it); min/max exactly",
+    "sums compared with 1e-9 relative to the sum of absolute terms (any summation order of <= 10^5 float64 terms "
+    "differs by < 2e-11 of it); min/max exactly",
 ]
 
 
